@@ -330,6 +330,8 @@ mkbinaryexpr(struct location *loc, enum tokenkind op, struct expr *l, struct exp
 		t = l->type;
 		if (t->base->incomplete || t->base->kind == TYPEFUNC)
 			error(loc, "pointer operand to '+' must be to complete object type");
+		if (t->base->size == 0 && t->base->prop & PROPVM)
+			error(loc, "arithmetic on a pointer to a variable length array is not yet supported");
 		r = mkbinaryexpr(loc, TMUL, exprconvert(r, &typeulong), mkconstexpr(&typeulong, t->base->size));
 		break;
 	case TSUB:
@@ -341,6 +343,8 @@ mkbinaryexpr(struct location *loc, enum tokenkind op, struct expr *l, struct exp
 			error(loc, "invalid operands to '-' operator");
 		if (l->type->base->incomplete || l->type->base->kind == TYPEFUNC)
 			error(loc, "pointer operand to '-' must be to complete object type");
+		if (l->type->base->size == 0 && l->type->base->prop & PROPVM)
+			error(loc, "arithmetic on a pointer to a variable length array is not yet supported");
 		if (rp & PROPINT) {
 			t = l->type;
 			r = mkbinaryexpr(loc, TMUL, exprconvert(r, &typeulong), mkconstexpr(&typeulong, t->base->size));
@@ -950,6 +954,8 @@ mkincdecexpr(enum tokenkind op, struct expr *base, bool post)
 		error(&tok.loc, "operand of '%s' operator must have scalar type", tokstr[op]);
 	if (base->type->kind == TYPEPOINTER && (base->type->base->incomplete || base->type->base->kind == TYPEFUNC))
 		error(&tok.loc, "pointer operand of '%s' operator must be to complete object type", tokstr[op]);
+	if (base->type->kind == TYPEPOINTER && base->type->base->size == 0 && base->type->base->prop & PROPVM)
+		error(&tok.loc, "arithmetic on a pointer to a variable length array is not yet supported");
 	e = mkexpr(EXPRINCDEC, base->type, base);
 	e->op = op;
 	e->u.incdec.post = post;
